@@ -261,6 +261,37 @@ def check_parser_reads(model, rep, rule):
                 rep.bad(rule, g.qualname, where(g, n), f"`{src(n)[:40]}` slices the parser's buffer directly, bypassing the bounds checks", stmt="direct-slice")
 
 
+def check_wrappers(model, rep, rule):
+    """The two ExceptionWrapper sites and the wrapper itself (shared with C02: a malformed RDATA must surface as FormError)."""
+    sites = []
+    for f in model.all_functions():
+        for n in ast.walk(f.node):
+            if isinstance(n, (ast.With,)):
+                for i in n.items:
+                    ce = i.context_expr
+                    if isinstance(ce, ast.Call) and (dotted(ce.func) or "").endswith("ExceptionWrapper"):
+                        sites.append((f, n, ce))
+    rep.floor(rule, len(sites), 2)
+    want = {"dns.rdata.from_text": ("dns.exception.SyntaxError", "cls.from_text"), "dns.rdata.from_wire_parser": ("dns.exception.FormError", "cls.from_wire_parser")}
+    for fq, (cls_, call) in want.items():
+        f = model.func(fq)
+        mine = [(w, ce) for (g, w, ce) in sites if g.qualname == fq]
+        okk = False
+        if mine:
+            w, ce = mine[0]
+            okk = src(ce.args[0]) == cls_ and any(isinstance(c, ast.Call) and src(c.func) == call for c in ast.walk(w))
+            # no per-type call outside the wrapper
+            outside = [c for c in ast.walk(f.node) if isinstance(c, ast.Call) and src(c.func) in (call, "GenericRdata.from_text", "cls.from_text") and not any(c is x for x in ast.walk(w))]
+            okk = okk and not outside
+        rep.check(okk, rule, fq, where(f, f.node), f"the per-type call {call} runs inside `with ExceptionWrapper({cls_})`",
+                  f"{call} is not (entirely) inside `with dns.exception.ExceptionWrapper({cls_})`: any exception of a record type's parser escapes unconverted", stmt="wrapper-site")
+    ew = model.func("dns.exception.ExceptionWrapper.__exit__")
+    t = " ".join(src(ew.node).split())
+    okk = "if exc_type is not None and (not isinstance(exc_val, self.exception_class)): raise self.exception_class(str(exc_val)) from exc_val return False" in t
+    rep.check(okk, rule, ew.qualname, where(ew, ew.node), "__exit__ re-raises every foreign exception as exception_class(str(exc_val)) and swallows nothing",
+              "ExceptionWrapper.__exit__ no longer converts every foreign exception (or swallows)", stmt="wrapper-exit")
+
+
 def run(model, rep, tier):
     R, E = build(model)
     H = E.h
@@ -351,33 +382,7 @@ def run(model, rep, tier):
             rep.blind("R-04.1", fq, f"{model.functions[fq].file}:{line}", f"receiver of `{text}` is untyped and {n} methods share the name: add a type hint to the checker", stmt=f"cha {text}")
 
     # ---------------------------------------------------------------- R-04.3
-    sites = []
-    for f in model.all_functions():
-        for n in ast.walk(f.node):
-            if isinstance(n, (ast.With,)):
-                for i in n.items:
-                    ce = i.context_expr
-                    if isinstance(ce, ast.Call) and (dotted(ce.func) or "").endswith("ExceptionWrapper"):
-                        sites.append((f, n, ce))
-    rep.floor("R-04.3", len(sites), 2)
-    want = {"dns.rdata.from_text": ("dns.exception.SyntaxError", "cls.from_text"), "dns.rdata.from_wire_parser": ("dns.exception.FormError", "cls.from_wire_parser")}
-    for fq, (cls_, call) in want.items():
-        f = model.func(fq)
-        mine = [(w, ce) for (g, w, ce) in sites if g.qualname == fq]
-        okk = False
-        if mine:
-            w, ce = mine[0]
-            okk = src(ce.args[0]) == cls_ and any(isinstance(c, ast.Call) and src(c.func) == call for c in ast.walk(w))
-            # no per-type call outside the wrapper
-            outside = [c for c in ast.walk(f.node) if isinstance(c, ast.Call) and src(c.func) in (call, "GenericRdata.from_text", "cls.from_text") and not any(c is x for x in ast.walk(w))]
-            okk = okk and not outside
-        rep.check(okk, "R-04.3", fq, where(f, f.node), f"the per-type call {call} runs inside `with ExceptionWrapper({cls_})`",
-                  f"{call} is not (entirely) inside `with dns.exception.ExceptionWrapper({cls_})`: any exception of a record type's parser escapes unconverted", stmt="wrapper-site")
-    ew = model.func("dns.exception.ExceptionWrapper.__exit__")
-    t = " ".join(src(ew.node).split())
-    okk = "if exc_type is not None and (not isinstance(exc_val, self.exception_class)): raise self.exception_class(str(exc_val)) from exc_val return False" in t
-    rep.check(okk, "R-04.3", ew.qualname, where(ew, ew.node), "__exit__ re-raises every foreign exception as exception_class(str(exc_val)) and swallows nothing",
-              "ExceptionWrapper.__exit__ no longer converts every foreign exception (or swallows)", stmt="wrapper-exit")
+    check_wrappers(model, rep, "R-04.3")
 
     # ---------------------------------------------------------------- R-04.4
     wire_classes = ["dns.name.BadPointer", "dns.name.BadLabelType", "dns.name.NameTooLong", "dns.message.ShortHeader", "dns.message.TrailingJunk", "dns.message.BadEDNS", "dns.message.BadTSIG",
